@@ -122,11 +122,20 @@ def cases(tier):
         yield c
 
 
+LIST_FIELDS = ("l", "ln", "u", "m4")
+ABSTRACT_FIELDS = ("i", "u")
+
+
 def _override_sets(paths, tier):
     yield {}
     for p in paths:
         for o in ("err", "boom", "null"):
             yield {p: o}
+        last = p.split(".")[-1]
+        if last in LIST_FIELDS:
+            yield {p: "lazy-err"}
+        if last in ABSTRACT_FIELDS:
+            yield {p: "type-err"}
     if tier == "thorough":
         for p, q in itertools.combinations(paths, 2):
             for o1, o2 in (("err", "err"), ("err", "null"), ("null", "err"), ("err", "boom"), ("boom", "err")):
